@@ -204,6 +204,13 @@ func nmConcretise(name string, pass int) *nmConc {
 		}
 	}
 	c.d = string(rune('0' + r.intn(10)))
+	switch r.intn(8) {
+	case 0:
+		// the digit symbol stands for a run of digits: one that no machine integer holds
+		c.d = []string{"99999999999999999999", "18446744073709551616", "9223372036854775808"}[r.intn(3)]
+	case 1:
+		c.d = []string{"007", "00", "10"}[r.intn(3)]
+	}
 	c.keyK = c.k
 	for {
 		if r.intn(3) == 0 {
